@@ -164,7 +164,7 @@ def sweeps(tier, rng):
     from fontTools.ttLib import TTFont
     from fontTools.merge import Merger
     from lib.hb import HBFont, save_bytes
-    n = 10 if tier == "quick" else 40 if tier == "search" else 150
+    n = 36 if tier == "quick" else 60 if tier == "search" else 300
     def run_merge():
         tmp = tempfile.mkdtemp(prefix="fvC18_")
         try:
@@ -175,9 +175,14 @@ def sweeps(tier, rng):
                 [(["a", "b", "c"], 0x41, "languagesystem DFLT dflt; languagesystem latn dflt;\nfeature liga { script latn; sub a b by c; } liga;", None),
                  (["d", "e", "f"], 0x61, "languagesystem DFLT dflt; languagesystem latn dflt;\nfeature ccmp { script latn; sub d by e; } ccmp;\nfeature liga { script latn; sub d e by f; } liga;", None)],
                 [(["one", "one.1", "two"], 0x31, None, None), (["one", "three"], 0x41, None, None), (["one", "one.1"], 0x51, None, None)],
+                # positioning lookups in both inputs; the second input's contextual lookup (and the lookup it calls) are Extension lookups
+                [(["a", "b", "c", "x"], 0x41, "languagesystem DFLT dflt; languagesystem latn dflt;\nlookup KA { pos a 40; } KA;\nfeature kern { script latn; pos b c -25; pos a' lookup KA b; } kern;", None),
+                 (["alpha", "beta", "gamma"], 0x3B1, "languagesystem DFLT dflt; languagesystem grek dflt;\nlookup KB useExtension { pos beta 30; } KB;\nlookup XB useExtension { pos beta' lookup KB gamma; } XB;\nfeature kern { script grek; pos alpha beta -15; lookup XB; } kern;", None)],
+                [(["a", "b"], 0x41, "languagesystem DFLT dflt; languagesystem latn dflt;\nfeature kern { script latn; pos a b -25; } kern;", None),
+                 (["d", "e", "f"], 0x61, "languagesystem DFLT dflt; languagesystem latn dflt;\nlookup KD { pos e <10 0 20 0>; } KD;\nlookup XD useExtension { pos d e' lookup KD f; } XD;\nfeature kern { script latn; lookup XD; } kern;", None)],
             ]
             for it in range(n + len(directed)):
-                k = rng.randint(2, 3); fonts = []; disjoint = rng.chance(50)
+                k = rng.randint(2, 3); fonts = []; feas = []; disjoint = rng.chance(50)
                 # a third of the merges: every input declares the SAME script with its own language systems, in any order
                 langmode = it < n and it % 3 == 1; langs_of = {}
                 if langmode: disjoint = True
@@ -196,6 +201,11 @@ def sweeps(tier, rng):
                             if nm not in names: names.append(nm)
                     base = 0x41 + (fi * 0x100 if disjoint else 0)
                     cm = {base + j: nm for j, nm in enumerate(names[1:]) if rng.chance(80)}
+                    # some inputs also map supplementary-plane characters (their character map then needs a format 12 subtable)
+                    # (not in the language-system merges: script-neutral characters reach an input's 'latn' rules only through the shaper's
+                    # fallback when no DFLT script exists, and the merged font has the DFLT script of the OTHER inputs)
+                    if disjoint and not langmode and rng.chance(35):
+                        for j, nm in enumerate(names[1:4]): cm[0x1F600 + fi * 0x10 + j] = nm
                     fea = None; req = None
                     gs = [nm for nm in names[1:]]
                     if langmode and len(gs) >= 3:
@@ -210,6 +220,12 @@ def sweeps(tier, rng):
                         if rng.chance(60): feats.append("feature ccmp { script %s; sub %s %s by %s; } ccmp;" % (script, a_, b_, c_))
                         if rng.chance(60): feats.append("feature liga { script %s; sub %s %s by %s; } liga;" % (script, b_, a_, c_))
                         if rng.chance(40): feats.append("feature calt { script %s; sub %s' %s by %s; } calt;" % (script, a_, c_, b_))
+                        # positioning: pair kerning, and contextual positioning that calls another lookup — some of it stored as Extension lookups
+                        if rng.chance(75):
+                            ext = " useExtension" if rng.chance(50) else ""
+                            feats.append("lookup K%d%s { pos %s %d; } K%d;" % (fi, ext, a_, 30 + 7 * fi, fi))
+                            feats.append("lookup X%d%s { pos %s' lookup K%d %s; } X%d;" % (fi, " useExtension" if rng.chance(65) else "", a_, fi, b_, fi))
+                            feats.append("feature kern { script %s; pos %s %s %d; lookup X%d; } kern;" % (script, b_, c_, -20 - fi, fi))
                         if feats:
                             fea = "languagesystem DFLT dflt; languagesystem %s dflt;\n" % script + "\n".join(feats)
                             if rng.chance(40) and "ccmp" in fea: req = "ccmp"
@@ -217,7 +233,7 @@ def sweeps(tier, rng):
                         f = _build(names, cm, fea, seedshape=fi * 3, req=req)
                     except Exception:
                         f = _build(names, cm, None, seedshape=fi * 3)
-                    p = os.path.join(tmp, "f%d_%d.ttf" % (it, fi)); f.save(p); fonts.append((p, names, cm))
+                    p = os.path.join(tmp, "f%d_%d.ttf" % (it, fi)); f.save(p); fonts.append((p, names, cm)); feas.append(fea)
                 bad = None
                 try:
                     merged = Merger().merge([p for p, _, _ in fonts])
@@ -248,7 +264,7 @@ def sweeps(tier, rng):
                                 def sig(hf, res_):
                                     return [(hf.outline(hf.order.index(g) if g in hf.order else 0), adv, xo, yo) for g, adv, _, xo, yo in res_]
                                 if sig(h, a) != sig(hm, b):
-                                    bad = "text %r (language %r) of input %d shapes differently after the merge: %r -> %r" % (text, lang, i, a, b); break
+                                    bad = "text %r (language %r) of input %d shapes differently after the merge: %r -> %r; feature files %r; cmaps %r" % (text, lang, i, a, b, feas, [sorted(c_.items()) for _, _, c_ in fonts]); break
                             if bad: break
                 except Exception as e:
                     import traceback
